@@ -63,10 +63,15 @@ def judge(m, nodes, edges, order8=None):
 
 
 def _case(acc, nodes, edges, skip, order8=None, tag=''):
-    m = mk.carbon_graph(nodes, edges, skip=skip, order8=order8)
     acc.states += 1
     acc.transitions += 1
-    r = judge(m, nodes, edges, order8)
+    try:
+        m = mk.carbon_graph(nodes, edges, skip=skip, order8=order8)
+    except Exception as e:  # constructing a molecule from a valid graph must not raise
+        m = None
+        r = 'EXC-build ' + type(e).__name__
+    else:
+        r = judge(m, nodes, edges, order8)
     mu = len(edges) - len(list(nodes) if not isinstance(nodes, int) else range(nodes)) + 1
     if r:
         acc.outcomes['FAIL ' + r.split()[0]] += 1
@@ -236,6 +241,9 @@ def replay(rec):
     nodes = rec['nodes']
     edges = [tuple(e) for e in rec['edges']]
     o8 = tuple(rec['order8']) if rec.get('order8') else None
-    m = mk.carbon_graph(nodes, edges, skip=rec.get('skip', True), order8=o8)
+    try:
+        m = mk.carbon_graph(nodes, edges, skip=rec.get('skip', True), order8=o8)
+    except Exception as e:
+        return [{'key': rec['key'], 'reason': 'EXC-build ' + type(e).__name__}]
     r = judge(m, nodes, edges, o8)
     return [{'key': rec['key'], 'reason': r}] if r else []
